@@ -15,7 +15,7 @@
      content=bytes -> raw content without a Content-Type of its own (the generator adds the header);
      cookies=dict -> Cookie header, values must be str;
      urllib.parse.quote(v, safe="") / the server's unquote: a quoted value is ONE path segment.
-   The open defects are kept (F04b, F04c, F04d, F04f, F04i, F04k); F04a, F04e, F04g, F04h are fixed in the code
+   The open defects are kept (F04c, F04d, F04f, F04i, F04j, F04k); F04a, F04b, F04e, F04g, F04h are fixed in the code
    and the model transcribes the fixed code.  No proofs in this file. *)
 From PG Require Import Lib.Strs.
 From PG Require Export Gen.T_C04.
@@ -333,7 +333,8 @@ Section Wire.
   Inductive body_plan :=
   | BPNone                                  (* json=None, data=None *)
   | BPStd (k : ckind) (var : str) (ct : str)  (* json=serialize(var) | files=serialize(var) | data=serialize(var) | content=var + Content-Type ct *)
-  | BPDispatch (branches : list (str * ckind)).  (* if var is not None: … elif … else: raise ValueError *)
+  | BPDispatch (branches : list (str * ckind)) (optional : bool).
+      (* if var is not None: … elif … else: raise ValueError (required body) | request without a body *)
 
   (* what the generator emits for one operation *)
   Record plan := {
@@ -381,25 +382,32 @@ Section Wire.
     | x :: r => if mem_str x seen then dedup r seen else x :: dedup r (x :: seen)
     end.
 
-  Definition sig_loc (p : param) : bool :=
-    match p_loc p with Cookie => false | _ => true end.
+  Definition nonbody (is : list info) : list info :=
+    filter (fun i => match i_in i with InBody => false | InParam _ => true end) is.
 
-  (* >= 2 content types: generate_implementation_signature + the dispatch of
-     _generate_implementation_method (params=None, headers=None on every branch; path values are
-     NOT serialised; `content_type` is accepted and ignored) *)
+  (* >= 2 content types: generate_implementation_signature (every parameter, cookies included, in
+     document order and without defaults; then the body keywords; `content_type` is accepted and
+     ignored) + _generate_implementation_method: the URL / params / headers / cookies are emitted by the
+     SAME generate_url_and_args as in the standard method, from ordered_params without the body entry,
+     and passed on every dispatch branch; with an optional request body the final else sends the request
+     without a body *)
   Definition plan_multi (o : op) : plan :=
-    let ps := filter sig_loc (o_params o) in
+    let ps := o_params o in
     let bvars := dedup (map body_var_multi (o_body o)) [] in
+    let is := nonbody (ordered o) in
     {| pl_sig := v_self :: map (fun p => mn (p_name p)) ps ++ bvars ++ [v_content_type];
        pl_bind := map (fun p => (mn (p_name p), InParam (p_loc p), p_name p)) ps
                   ++ map (fun v => (v, InBody, v)) bvars;
-       pl_accepts_cookie := false;
-       pl_path_ser := [];
+       pl_accepts_cookie := true;
+       pl_path_ser := map pyname (filter (is_in Path) is);
        pl_url := url_plan (o_path o);
-       pl_params := None;
-       pl_headers := None;
-       pl_cookies := None;
-       pl_body := BPDispatch (map (fun ct => (body_var_multi ct, kind_of ct)) (o_body o)) |}.
+       pl_params := if existsb (fun p => loc_eqb (p_loc p) Query) (o_params o)
+                    then Some (dict_plan Query is) else None;
+       pl_headers := if existsb (is_in Header) is then Some (dict_plan Header is) else None;
+       pl_cookies := if existsb (fun p => loc_eqb (p_loc p) Cookie) (o_params o)
+                     then Some (dict_plan Cookie is) else None;
+       pl_body := BPDispatch (map (fun ct => (body_var_multi ct, kind_of ct)) (o_body o))
+                             (negb (o_body_required o)) |}.
 
   Definition is_multi (o : op) : bool :=
     match o_body o with _ :: _ :: _ => true | _ => false end.
@@ -471,11 +479,11 @@ Section Wire.
     | _ => match x with PB (BForm kv) => Some (wire_form kv) | _ => None end
     end.
 
-  Fixpoint dispatch (e : env) (bs : list (str * ckind)) : option (option str * bobs) :=
+  Fixpoint dispatch (e : env) (opt : bool) (bs : list (str * ckind)) : option (option str * bobs) :=
     match bs with
-    | [] => None                                   (* raise ValueError *)
+    | [] => if opt then Some (None, ONone) else None     (* no body | raise ValueError *)
     | (x, k) :: r => match env_get e x with
-                     | PNone => dispatch e r
+                     | PNone => dispatch e opt r
                      | v => send_dispatch k v
                      end
     end.
@@ -487,7 +495,7 @@ Section Wire.
                    | None => None                  (* NameError: the body variable is not an argument *)
                    | Some v => send_kind k ct v
                    end
-    | BPDispatch bs => dispatch e bs
+    | BPDispatch bs opt => dispatch e opt bs
     end.
 
   Definition run (o : op) (pl : plan) (a : args) : option request :=
@@ -634,21 +642,13 @@ Section Wire.
   Definition known_kind (ct : str) : bool := match kind_of ct with KOther => false | _ => true end.
   Definition no_slash (s : str) : bool := forallb (fun c => negb (c =? slash)) s.
 
-  (* F04b: the multi-content-type implementation bypasses the parameter plumbing: query/header arguments
-     are never sent, cookie parameters are not accepted, path values are interpolated raw (not serialised:
-     date-time, Enum members; not percent-encoded: '/'), an omitted optional body raises ValueError, and
-     media types other than json/multipart/form go through serialize() (outside the model) *)
-  Definition raw_ok (s : scalar) : bool :=
-    no_slash (wire s) && match s with VEnum _ _ _ | VDateTime _ _ => false | _ => true end.
-  Definition guard_F04b (o : op) (a : args) : bool :=
-    negb (is_multi o)
-    || (forallb (fun k => match k with
-                          | (Path, _, Sc s) => raw_ok s
-                          | (Path, _, Arr _) => true
-                          | _ => false
-                          end) (a_params a)
-        && match a_body a with Some _ => true | None => false end
-        && forallb known_kind (o_body o)).
+  (* F04j (what is left of F04b, which is fixed): inside a multi-content operation a media type other
+     than json/multipart/form shares the `body` keyword with JSON: [json, octet-stream] + bytes is sent as
+     a JSON base64 string, [octet-stream, json] + a JSON object is sent form-encoded (observed on a
+     generated client; serialize(bytes) -> base64 is outside the model, which answers None there, so
+     such operations are not generated by the correspondence run) *)
+  Definition guard_F04j (o : op) (a : args) : bool :=
+    negb (is_multi o) || forallb known_kind (o_body o).
 
   (* F04c: two arguments of the generated signature get the same python name *)
   Definition guard_F04c (o : op) (a : args) : bool := nodup_str (pl_sig (plan_of o)).
@@ -691,6 +691,6 @@ Section Wire.
     end.
 
   Definition guards (o : op) (a : args) : list bool :=
-    [guard_F04b o a; guard_F04c o a; guard_F04d o a; guard_F04f o a; guard_F04i o a; guard_F04k o a].
+    [guard_F04j o a; guard_F04c o a; guard_F04d o a; guard_F04f o a; guard_F04i o a; guard_F04k o a].
   Definition guard (o : op) (a : args) : bool := forallb (fun b => b) (guards o a).
 End Wire.
